@@ -4,6 +4,9 @@ import XmppModel.Model.Encoder
 /-! Driver for C05 (see harness/c05 for the line protocol).
 
     tx <entry> <ns> <from|-> <startTok|-> <toks>   -> <status> <canonical wire tokens>
+    fault <mode> <ns> <from|-> <k> <toks> <next>   -> <first ok|fail> <next ok|broken> <canonical wire>
+                                                       (mode reader|tw|badtok|badend: the first call stops after
+                                                       k tokens of its element; then Send(next))
     flush <entry> <form>                           -> 1 | 0   (is the element on the connection
                                                        when the call returns)
     conc <n> <i0,i1,…>                             -> ok | bad   (is the observed order of
@@ -48,7 +51,13 @@ def handle (args : List String) : Option String :=
       let (n, as) ← startOf start
       pure (outLine cfg "ok" (sendElementToks n as ts))
     | "enc" => pure (outLine cfg "ok" ts)
-    | "tw" => pure (outLine cfg "ok" ts)
+    | "tw" =>
+      if _form.startsWith "f:" then do
+        let pos ← mapM? (fun (x : String) => x.toNat?) (splitList (_form.drop 2).toString)
+        let ops := (twRun cfg fresh 0 (withFlushes pos 0 ts)).2
+        let o := exec ⟨[], []⟩ (ops ++ [.flush])
+        pure s!"ok {encToks (canon cfg.ns o.wire)}"
+      else pure (outLine cfg "ok" ts)
     | "reply" => pure (outLine cfg "ok" ts)
     | "encel" => do
       let (n, as) ← startOf start
@@ -57,6 +66,31 @@ def handle (args : List String) : Option String :=
     | "msg" => pure (stanzaLine cfg .message ts)
     | "pres" => pure (stanzaLine cfg .presence ts)
     | _ => none
+  | ["fault", mode, ns, from_, k, toks, next] => do
+    let fr ← if from_ == "-" then some "" else hexDecodeStr from_
+    let cfg : Cfg := ⟨ns, fr⟩
+    let k ← k.toNat?
+    let ts ← decToks toks
+    let us ← decToks next
+    let nextToks ← match sendToks us with | .ok o => some o | .error _ => none
+    -- what the first call hands to the encoder and whether it reports success
+    let (handed, ok1, refused) ←
+      match mode with
+      | "reader" =>
+        if k ≥ ts.length then
+          match sendToks ts with
+          | .ok o => some (o, true, false)
+          | .error _ => none
+        else some (ts.take k, false, false)
+      | "tw" => some (ts.take k, true, false)
+      | "badtok" => some (ts.take k, false, true)
+      | "badend" => some (ts.take k, false, true)
+      | _ => none
+    let r := faultThenNext true cfg fresh handed handed.length nextToks refused
+    let s1 := if ok1 then "ok" else "fail"
+    match r.2 with
+    | .wrote out => pure s!"{s1} ok {encToks (canon cfg.ns (r.1 ++ out))}"
+    | .refused => pure s!"{s1} broken {encToks (canon cfg.ns r.1)}"
   | ["flush", entry, form] => pure (showBool (flushesAtReturn entry form))
   | ["conc", n, order] => do
     let n ← n.toNat?
